@@ -2,6 +2,7 @@ import Driver.Proto
 import Driver.C21
 import Driver.C05
 import Driver.C31
+import Driver.C07
 /-
   Model driver: reads one request per line on stdin (`<suite> <op> <args…>`), answers one
   line per request on stdout.  Imports models only (no Mathlib, no proofs).
@@ -13,6 +14,7 @@ def dispatch (fs : List String) : String :=
   | "c21" :: rest => Driver.c21 rest
   | "c05" :: rest => Driver.c05 rest
   | "c31" :: rest => Driver.c31 rest
+  | "c07" :: rest => Driver.c07 rest
   | _ => "bad-op"
 
 partial def loop (h : IO.FS.Stream) (out : IO.FS.Stream) : IO Unit := do
